@@ -403,6 +403,10 @@ pub enum Extra {
     /// guarded reads in P2 (enough to reach the end of the file), then 0 nothing, 1 \closein, 2 reopen,
     /// 3 reopen the other file, 4 open a missing file
     Stream { s: u8, file: u8, before: u8, after: u8, then: u8 },
+    /// a name of unusual form in the interner: 0 the empty name (an escape character at the very end of a
+    /// line that has no end-line character), 1 a non-ASCII control symbol, 2 a name of 150 letters,
+    /// 3 the control space
+    OddName(u8),
 }
 
 #[derive(Clone, Debug, Serialize, Deserialize)]
@@ -569,6 +573,35 @@ fn render_extras(extras: &[Extra], hoist: bool, seed_dir: &str) -> Pieces {
                 }
                 p.obs.push_str("\\vpmp ab.c;\\vpmp{x.y}.{zz};");
                 p.tail.push_str("\\vpmp ab.c;");
+            }
+            Extra::OddName(k) => {
+                // (definition, use); the definitions and uses are lines of their own where needed
+                let (def, usage): (String, String) = match *k % 4 {
+                    0 => {
+                        p.classes.push("extra: control sequence with the empty name");
+                        ("%\n\\endlinechar=-1\\relax\n\\def\\\n{EN}\\endlinechar=13\\relax\n".to_string(), "%\n\\endlinechar=-1\\relax\n(\\\n)\\endlinechar=13\\relax\n".to_string())
+                    }
+                    1 => {
+                        p.classes.push("extra: non-ASCII control symbol");
+                        ("\\def\\\u{e9}{S\u{e9}}\\def\\\u{10348}{T}".to_string(), "\\\u{e9};\\\u{10348};".to_string())
+                    }
+                    2 => {
+                        p.classes.push("extra: name of 150 letters");
+                        let name = "vplong".repeat(25);
+                        (format!("\\def\\{name}{{L}}\\def\\{name}x{{M}}"), format!("\\{name};\\{name}x;"))
+                    }
+                    _ => {
+                        p.classes.push("extra: control space redefined");
+                        ("\\def\\ {SP}".to_string(), "\\ ;".to_string())
+                    }
+                };
+                if hoist {
+                    p.p0.push_str(&def);
+                } else {
+                    p.p1.push_str(&def);
+                }
+                p.obs.push_str(&usage);
+                p.tail.push_str(&usage);
             }
             Extra::FreshName(k) => {
                 p.classes.push("extra: fresh name");
@@ -1054,6 +1087,7 @@ fn extra_strategy() -> impl Strategy<Value = Extra> {
         2 => (any::<u8>(), int_strategy()).prop_map(|(a, b)| Extra::NewIntArray(a, b)),
         1 => Just(Extra::ParamMacro),
         1 => (0u8..4).prop_map(Extra::FreshName),
+        3 => (0u8..4).prop_map(Extra::OddName),
         1 => (0u8..4, 0u8..3).prop_map(|(a, b)| Extra::OpenIn(a, b)),
         3 => (0u8..4).prop_map(Extra::OpenCond),
         1 => (0u8..4).prop_map(Extra::OuterCond),
